@@ -58,6 +58,10 @@ THEOREMS = {
     "C06_ties_first": "plate_id_with_minimum_score returns the FIRST slot in storage order among the eligible slots of minimal score (numpy argmin)",
     "C06_ties_storage_order": "in the pipeline the storage order is: chunks in the order combined, each in ascending plate id; earlier allowed slots are strictly worse",
     "C06_ties_identity_order": "chunks combined in index order: among tied minimal allowed plates the smallest plate id is returned",
+    'C06_model_is_source_get_plate_plates': "primitives `screen.get_plate(i)` -> get_plate and `screen.plates` -> plates: the translated Screen.get_plate / Screen.plates (Generated/SrcViews.v), read through the representation sc_rows / sc_subset, give the model's plate for that id / one such plate per sorted distinct plate id",
+    'C06_model_is_source_plate_id': 'primitive `p.plate_id` -> p_id: the translated Plate.plate_id of the plate get_plate(pid) returns (pid a plate id of the screen) is pid',
+    'C06_model_is_source_is_observed': 'primitive `p.is_observed` -> is_observed: the translated ScreenBase.is_observed on a plate = np.all of the mask bits of the rows the plate selects',
+    'C06_model_is_source_plate_name': "primitive `p.plate_name` -> plate_name: the model answers the position of the plate's first row; the translated Plate.plate_name returns the plate name stored at that position and raises IndexError exactly when the model refuses",
 }
 ASSUMPTIONS = [
     "h5py dataset/attribute write then read is the identity on float64/int64 arrays and ints (exercised by every holder and pipeline case)",
@@ -107,7 +111,19 @@ EXPLANATION = ("Tie to the code, two ways.  (1) Source-translation links: select
                "ChunkedScoresHolder with zero-initialised slots, argmin over the eligibility mask, select_next_plate, whole pipeline). "
                "Compared exactly per case: (plate id, row positions, sample ids, treatment ids) handed to the scorer per chunk, every "
                "holder's size/slots/current_index after save+load, the combined holder, the selected id; exceptions <-> Err. "
-               "Modelled, not verified: numpy/h5py storage, logging, argparse; the DBAL scorer (C05) and KPerSamplePlatePolicy (C16).")
+               "Modelled, not verified: numpy/h5py storage, logging, argparse; the DBAL scorer (C05) and KPerSamplePlatePolicy (C16)."
+               '  PRIMITIVES AS THEOREMS: the data.py helpers the scoring links use as primitives (Screen.plates, Screen.get_plate, '
+               'Plate.plate_id, ScreenBase.is_observed on a plate, Plate.plate_name) are translated themselves (configurations C14_* / '
+               'H14_* of harness/src_functions.py, Generated/SrcViews.v and SrcPlates.v, linked to Model/Views.v by the '
+               'C14_model_is_source_* theorems) and Proofs/C06SourceHelpers.v proves, per primitive, that the translation read through '
+               'the representation `Scores row i = (plate id, mask bit, sample id, treatment ids) of row i of the Views screen; Scores '
+               'plate = its id and the (position, row) pairs the view selects` is the meaning the configuration gave it '
+               '(C06_model_is_source_get_plate_plates / _plate_id / _is_observed / _plate_name; side conditions screen_wf / view_ok '
+               "hold of every constructed screen / view).  What those helper translations trust is listed in C14's explanation (HELPER "
+               'LINKS).  Still primitives here: np.random.default_rng(), sorted(key=plate_id), np.array_split(...)[i].tolist(), the '
+               'policy / scorer / holder calls, and the Scores meanings of ScreenSubset.concat / combine / '
+               'filter_dataset_to_unique_treatments (those three are linked in the Views vocabulary by C14; their bridge to '
+               'Scores.subset_concat / subset_union / uniq_first is not stated). ')
 # ---- source-translation links of the command-line wrappers (Model/Cli.v, Generated/SrcCli.v) ----
 THEOREMS.update({
     'C06_model_is_source_cli_select_next_plate': "the translation of the whole function select_next_plate.main regenerated on this run equals, for every record L of library functions and all parsed arguments, Cli.cli_select_next_plate: select_next_plate on the loaded screen, the concatenation of the --scores files in argument order, the --batch-plate-id list, the policy object (None without --policy) and the generator from --seed; the output file gets the chosen plate's id, or -1 exactly when the library function returned None",
